@@ -93,3 +93,13 @@ Theorem no_mutable_package_state :
   forallb (fun v => match v with (_, _, c) => String.eqb c "fixed" end) go_package_vars = true.
 Proof. exact TieWrites.no_mutable_package_state. Qed.
 Print Assumptions no_mutable_package_state.
+
+Theorem evaluation_path_mutates_only_its_own_containers :
+  evaluation_path_shared_calls = [].
+Proof. exact TieWrites.evaluation_path_mutates_only_its_own_containers. Qed.
+Print Assumptions evaluation_path_mutates_only_its_own_containers.
+
+Theorem evaluation_path_builds_fresh_containers :
+  existsb (fun c => existsb (String.eqb (c_fn c)) go_eval_reachable && String.eqb (c_class c) "fresh") go_mutating_calls = true.
+Proof. exact TieWrites.evaluation_path_builds_fresh_containers. Qed.
+Print Assumptions evaluation_path_builds_fresh_containers.
